@@ -677,6 +677,18 @@ example : (brun (binit 256) [.push 200, .push 100, .push 50, .take, .kexinit, .f
 example : (brun (binit 256) [.push 200, .push 100, .push 50]).map (fun s => (s.bytesLeft, s.reqKex, s.over, s.direct))
     = some (-44, true, 1, 350) := by decide
 
+/-- the effective byte budget is always between the 256-byte minimum and 2^63 − 1 (it fits an int64) -/
+theorem effectiveThreshold_range (thr : Nat) (c : String) :
+    256 ≤ effectiveThreshold thr c ∧ effectiveThreshold thr c ≤ 2 ^ 63 - 1 := by
+  unfold effectiveThreshold
+  repeat' split
+  all_goals (simp_all <;> omega)
+
+example : effectiveThreshold 0 "aes128-gcm@openssh.com" = 68719476736 ∧ effectiveThreshold 0 "chacha20-poly1305@openssh.com" = 1073741824 ∧
+    effectiveThreshold 255 "aes128-ctr" = 256 ∧ effectiveThreshold 256 "aes128-ctr" = 256 ∧
+    effectiveThreshold (2 ^ 63) "aes128-ctr" = 9223372036854775807 ∧
+    effectiveThreshold (2 ^ 64 - 1) "aes128-ctr" = 9223372036854775807 := by decide
+
 /-! ## the error path -/
 
 theorem estep_ok_err (e e' : ESt) (l : Label) (h : estep e (.ok l) = some e') : e'.err = e.err := by
